@@ -65,6 +65,9 @@ func init() {
 					mu.Unlock()
 					path := strings.Fields(line + " / /")[1]
 					switch {
+					case strings.Contains(path, "slow"):
+						time.Sleep(300 * time.Millisecond)
+						fmt.Fprintf(c, "HTTP/1.1 200 OK\r\nContent-Type: text/plain\r\nContent-Length: %d\r\nConnection: close\r\n\r\n%s", len(full), full)
 					case strings.Contains(path, "cut"):
 						// announces the whole body, sends 500 lines, waits until they are forwarded, closes
 						fmt.Fprintf(c, "HTTP/1.1 200 OK\r\nContent-Type: text/plain\r\nContent-Length: %d\r\n\r\n%s", len(full), full[:len(full)/4])
@@ -85,8 +88,9 @@ func init() {
 		status := map[uint64]*target.ScrapeStatus{7: target.NewScrapeStatus(1, 1)}
 		job := &scrape.JobInfo{Config: &config.ScrapeConfig{JobName: "job0", ScrapeTimeout: model.Duration(5 * time.Second)}, Cli: &http.Client{}}
 		cfg := &prom.ConfigInfo{ExtraConfig: &prom.ExtraConfig{}}
+		var cfgMu sync.Mutex
 		p := sidecar.NewProxy(func(string) *scrape.JobInfo { return job }, func() map[uint64]*target.ScrapeStatus { return status },
-			func() *prom.ConfigInfo { return cfg }, prometheus.NewRegistry(), quietLog)
+			func() *prom.ConfigInfo { cfgMu.Lock(); defer cfgMu.Unlock(); return cfg }, prometheus.NewRegistry(), quietLog)
 		go func() { _ = p.Run(paddr) }()
 		for i := 0; i < 100; i++ {
 			if c, err := net.Dial("tcp", paddr); err == nil {
@@ -130,6 +134,20 @@ func init() {
 		if st := status[7]; st.LastError == "" {
 			bad = append(bad, "after the broken scrape the target's status shows no error")
 		}
+		// (3) C12/C13: the stop-scrape reason is cleared while a scrape that started under it is in flight: what Prometheus gets
+		// is a failed scrape (the reason the scrape started under counts), never a 200 response without the target's bytes
+		setReason := func(r string) {
+			cfgMu.Lock()
+			cfg = &prom.ConfigInfo{ExtraConfig: &prom.ExtraConfig{StopScrapeReason: r}}
+			cfgMu.Unlock()
+		}
+		setReason("maintenance")
+		go func() { time.Sleep(120 * time.Millisecond); setReason("") }()
+		code, n, err = get("/slow/metrics")
+		if err == nil && code == 200 && n != len(full) {
+			bad = append(bad, fmt.Sprintf("a scrape that started under a stop-scrape reason which was cleared meanwhile: the client got 200 with %d of the %d bytes the target served", n, len(full)))
+		}
+		setReason("")
 		return bigVerdict("proxyrun", *out, bad, "the served proxy asks the target for its path as written and aborts a response whose body broke off")
 	}
 }
